@@ -339,8 +339,8 @@ func unknownTags(c *evid.Ctx) {
 
 var hostile1 = []byte{0x00, 0x7f, 0x80, 0xfe, 0xff, 0x08}
 var hostile2 = [][]byte{{0x7f, 0xff}, {0xff, 0xff}, {0x80, 0x00}}
-var hostile4 = [][]byte{{0x00, 0xff, 0xff, 0xff}, {0x01, 0x00, 0x00, 0x00}}
-var hostile5 = [][]byte{{0x04, 0x00, 0xff, 0xff, 0xff}, {0x03, 0xff, 0xff, 0xff, 0x00}} // decimal of 4 / 3 bytes carrying a 16 Mi-scale count
+var hostile4 = [][]byte{{0x00, 0xff, 0xff, 0xff}, {0x01, 0x00, 0x00, 0x00}, {0x7f, 0xff, 0xff, 0xff}, {0x7f, 0xff, 0xff, 0xf0}, {0x80, 0x00, 0x00, 0x00}}
+var hostile5 = [][]byte{{0x04, 0x00, 0xff, 0xff, 0xff}, {0x03, 0xff, 0xff, 0xff, 0x00}, {0x04, 0x7f, 0xff, 0xff, 0xff}, {0xfe, 0x7f, 0xff, 0xff, 0xff}, {0xfe, 0x7f, 0xff, 0xff, 0xf0}} // ... and a blob/text length prefix turned into its 4-byte form with a 2^31-scale length // decimal of 4 / 3 bytes carrying a 16 Mi-scale count
 
 func allocNow(s []metrics.Sample) uint64 {
 	metrics.Read(s)
